@@ -159,7 +159,9 @@ func (t *Table) DecrRef() error {
 		for i := 0; i < t.offsetsLength(); i++ {
 			t.opt.BlockCache.Del(t.blockCacheKey(i))
 		}
-		y.VerifIO("unlink", t.Fd.Name())
+		if t.Fd != nil {
+			y.VerifIO("unlink", t.Fd.Name())
+		}
 		if err := t.Delete(); err != nil {
 			return err
 		}
